@@ -1990,6 +1990,7 @@ func (ls *LState) Resume(th *LState, fn *LFunction, args ...LValue) (ResumeState
 		for _, arg := range args {
 			th.Push(arg)
 		}
+		th.adjustResumedValues(len(args))
 	}
 	top := ls.GetTop()
 	threadRun(th)
@@ -2017,6 +2018,14 @@ func (ls *LState) Yield(values ...LValue) int {
 		ls.Push(lv)
 	}
 	return -1
+}
+
+// adjustResumedValues makes the n values just pushed for the pending yield call exactly as many
+// as that call wants: missing ones become nil, surplus ones are dropped.
+func (ls *LState) adjustResumedValues(n int) {
+	if ls.yieldNRet != MultRet {
+		ls.reg.SetTop(ls.reg.Top() - n + ls.yieldNRet)
+	}
 }
 
 func (ls *LState) XMoveTo(other *LState, n int) {
